@@ -16,7 +16,7 @@ chk("C15", "exploration",
     "Complete enumeration of the codec's group-local input space: every 3-byte group, every line fill 0..45, every total length "
     "0..4096 (thorough 0..65536 and 2^k+-1 to 1 MiB) compared with a reference encoder, perl pack('u') and perl unpack('u'); every string of "
     "length <=6 (thorough <=7) over an 11-symbol decoder alphabet plus CR-LF/blank-line/over-long/bad-character rewrites for totality, "
-    "located errors and purity of src/dst. The decoder's error must point at the first invalid line (and character), as computed by a reference validator. Every length character 0x20..0xff with a data part of exactly the matching size (three contents, alone and after a full line) must decode to the bytes its characters stand for. An accepted input must be valid by the reference validator; lines of 4 KiB..1 MiB inside valid text.",
+    "located errors and purity of src/dst. The decoder's error must point at the first invalid line (and character), as computed by a reference validator. Every length character 0x20..0xff with a data part of exactly the matching size (three contents, alone and after a full line) must decode to the bytes its characters stand for. An accepted input must be valid by the reference validator; lines of 4 KiB..1 MiB inside valid text. Encoding and decoding into a destination without spare capacity keep its contents.",
     "perl 5.36 pack/unpack is the compatibility reference; contents at large sizes are three fixed patterns (the codec is group-local, and all groups are covered).",
     "DESIGN.md 5 C15")
 
@@ -38,32 +38,32 @@ chk("C04", "model_checking",
     "explicit-state BFS over the real broker under a controlled scheduler, goroutine census at quiescence",
     _BW + "C04: every ending (EOF, error, data+error, write/flush failure, cancel, input closed, shutdown) in every life state of uni- and bidirectional shells over "
     "successive shells, plus a stalled-terminal flood on an unbuffered operator channel; oracles: peer ends without traffic, exactly one ready/gone notice and event, "
-    "closure notices, no goroutine of an ended shell left, Do returns only when nothing is attached. Stalled terminal: notices are counted over the whole history (once a Connect call has returned, its closure/ready/gone notices must have been handed to the slow operator). HTTP seam: every way a client can end a direction over real TLS connections, several shells in a row. Wiring seam: the real binary under every boolean flag (alone and together), three shells in a row ended three ways: the listener re-arms, one gone notice each. Virtual clock (a second build): a shell whose streams are not the broker's to cancel, a stalled terminal, shutdown, ten minutes pass: Broker.Do must not have returned.",
+    "closure notices, no goroutine of an ended shell left, Do returns only when nothing is attached. Stalled terminal: notices are counted over the whole history (once a Connect call has returned, its closure/ready/gone notices must have been handed to the slow operator). HTTP seam: every way a client can end a direction over real TLS connections, several shells in a row. Wiring seam: the real binary under every boolean flag (alone and together), three shells in a row ended three ways: the listener re-arms, one gone notice each. Virtual clock (a second build): a shell whose streams are not the broker's to cancel, a stalled terminal, shutdown, ten minutes pass: Broker.Do must not have returned. A series of 1 100 shells through the real handlers: each attached, ended, announced gone once, the callback help printed again.",
     _BWNOTE, "DESIGN.md 4, 5 C04")
 chk("C06", "model_checking",
     "explicit-state BFS over the real broker under a controlled scheduler: every admission order of the halves of 2-4 /io requests",
     _BW + "C06: 2 (thorough up to 4) simultaneous ConnectInOut calls plus unidirectional streams, each half parked separately, every admission order, "
-    "cancellations and releases; oracle: the attached pair always belongs to one request (checked on state, on who receives the probe line and whose reader is drained). Gated HTTP seam: real /io, /i, /o requests over TLS whose broker halves are parked by the hooks, every admission order (4-8 halves) executed, pairing judged by the hooks and by probe traffic. Wiring seam: the real binary started with one and with two -listen-address flags, two /io clients on every address that accepts: at most one shell. HTTP seam: a unidirectional shell loses its input connection, a /io client becomes the shell, the old output connection sends a chunk: it belongs to no shell.",
+    "cancellations and releases; oracle: the attached pair always belongs to one request (checked on state, on who receives the probe line and whose reader is drained). Gated HTTP seam: real /io, /i, /o requests over TLS whose broker halves are parked by the hooks, every admission order (4-8 halves) executed, pairing judged by the hooks and by probe traffic. Wiring seam: the real binary started with one and with two -listen-address flags, two /io clients on every address that accepts: at most one shell. HTTP seam: a unidirectional shell loses its input connection, a /io client becomes the shell, the old output connection sends a chunk: it belongs to no shell. /io/k is used as a spelling of /io in two client sets of the gated seam.",
     _BWNOTE, "DESIGN.md 4, 5 C06")
 
 chk("C02", "model_checking",
     "explicit-state BFS over the real broker under a controlled scheduler with write/flush fault injection at every point; exhaustive payload enumeration",
     _BW + "C02: <=3 (thorough 4) operator lines entered before, between and during <=2-3 successive shells on all four writer kinds (plain, Flusher, FlushError, both), "
     "a write or flush failure at every point, clients vanishing (including 'while the line is in the proxy's hands'), input closing; oracle on the writers' call logs: "
-    "each entry = line + one newline, flushed before the next, gap-free duplicate-free run across shells, nothing lost except a line whose own transmission failed. Lines also enter through the real opshell.ChanWriter (sizes 2^k+-1 to 1 MiB) and through Ctrl+I on the real Shell (pty worker): exactly one entry, reported size and hash correct. HTTP seam: each entered line must be readable by the real client before the next is entered. Quiet spell: a second build with the clocks of internal/hsrv and internal/iobroker virtual; after 1 s..20 min of quiet (every due timer fired) lines still arrive exactly and nothing else does. Terminal seam: 1..100 lines pasted into the real Shell's terminal in one write enter the input channel once each, in order.",
+    "each entry = line + one newline, flushed before the next, gap-free duplicate-free run across shells, nothing lost except a line whose own transmission failed. Lines also enter through the real opshell.ChanWriter (sizes 2^k+-1 to 1 MiB) and through Ctrl+I on the real Shell (pty worker): exactly one entry, reported size and hash correct. HTTP seam: each entered line must be readable by the real client before the next is entered. Quiet spell: a second build with the clocks of internal/hsrv and internal/iobroker virtual; after 1 s..20 min of quiet (every due timer fired) lines still arrive exactly and nothing else does. Terminal seam: 1..100 lines pasted into the real Shell's terminal in one write enter the input channel once each, in order. The input stream is also requested with POST and PUT.",
     _BWNOTE + " The HTTP/1.1-over-TLS writer is represented by the FlushError kind (what net/http hands the handler); the TLS seam itself is not part of this check.",
     "DESIGN.md 4, 5 C02")
 chk("C03", "model_checking",
     "explicit-state BFS over the real broker: every sequence of read results x every terminal speed (unbuffered, one-slot, roomy operator channel)",
     _BW + "C03: every sequence of <=3 (thorough 4-5) read results over {data, zero-length, data+EOF/unexpected EOF/error, bare EOF/closed pipe/error, sizes 1/2047/2048/2049/5000}, "
     "operator channel of capacity 0, 1 and 1024 consumed at every relative speed, cancellation at every point (also simultaneously with a read returning); oracle: what is shown is "
-    "always a prefix of what was sent, complete and in front of the close notice when the stream ended by itself. Terminal seam: every sequence of <=4 (thorough 6) items over {chunk, chunk without newline, multi-line chunk, close-style notice, status line} through the real opshell.Shell on a pty, stepwise / burst / backlog before start: terminal = CR-LF translation, in order. The seam alphabet also has a chunk with CR LF and a chunk that repeats byte for byte. HTTP seam: every chunking x ending of a real upload. Quiet spell: a second build with the clocks of internal/hsrv and internal/iobroker virtual; after 1 s..20 min of quiet (every due timer fired in order) 32 chunks must still be displayed exactly. Handler seam: requests with scripted bodies (every sequence of <=3 read results incl. data together with reset / unexpected EOF / closed pipe) through the real mux and handlers into the real broker. A connection cut (FIN) in the middle of a chunk over TLS (known finding D11). The operator's side may also be found waiting (await event); a free-running complement (real broker, busy reader, cancellation at every position; prefix oracle) samples what lies inside one event. A terminal that takes only part of a write (EAGAIN): what it holds when read out later is a prefix of what was sent.",
+    "always a prefix of what was sent, complete and in front of the close notice when the stream ended by itself. Terminal seam: every sequence of <=4 (thorough 6) items over {chunk, chunk without newline, multi-line chunk, close-style notice, status line} through the real opshell.Shell on a pty, stepwise / burst / backlog before start: terminal = CR-LF translation, in order. The seam alphabet also has a chunk with CR LF and a chunk that repeats byte for byte. HTTP seam: every chunking x ending of a real upload. Quiet spell: a second build with the clocks of internal/hsrv and internal/iobroker virtual; after 1 s..20 min of quiet (every due timer fired in order) 32 chunks must still be displayed exactly. Handler seam: requests with scripted bodies (every sequence of <=3 read results incl. data together with reset / unexpected EOF / closed pipe) through the real mux and handlers into the real broker. A connection cut (FIN) in the middle of a chunk over TLS (known finding D11). The operator's side may also be found waiting (await event); a free-running complement (real broker, busy reader, cancellation at every position; prefix oracle) samples what lies inside one event. A terminal that takes only part of a write (EAGAIN): what it holds when read out later is a prefix of what was sent. (Three more chunks are sent while it is being read out: no hole.)",
     _BWNOTE, "DESIGN.md 4, 5 C03")
 chk("C11", "model_checking",
     "explicit-state BFS over the real broker with a capturing slog handler and a real slog JSON handler; exhaustive payload enumeration",
     _BW + "C11: histories of accepted, refused (every reason) and ended streams with lines delivered/failed and chunks shown/dropped; oracle per step: Shell I/O records in bijection and order "
     "with delivered lines and displayed chunks (also with an unbuffered operator channel), one connect and one disconnect record per accepted stream, one error-level record naming the reason "
-    "per refusal; every record also goes through slog's JSON handler and must come out as one parsable line carrying the JSON image of the data (all strings of <=2 (thorough 3) JSON-hostile symbols). Also: no record may be written after Broker.Do has returned (the capturing handler yields before storing, records and Do's return carry a global sequence number); one end-to-end session of the real binary with -log, the file parsed line by line. A second such session is ended by SIGKILL once both handlers have returned: the file must be as complete. Free-running complement with a log sink that takes 0.3 ms per record while output flows and the stream is cancelled / shut down / ends. Virtual clock: an input stream that accepts its line only after a minute; delivered lines = input records.",
+    "per refusal; every record also goes through slog's JSON handler and must come out as one parsable line carrying the JSON image of the data (all strings of <=2 (thorough 3) JSON-hostile symbols). Also: no record may be written after Broker.Do has returned (the capturing handler yields before storing, records and Do's return carry a global sequence number); one end-to-end session of the real binary with -log, the file parsed line by line. A second such session is ended by SIGKILL once both handlers have returned: the file must be as complete. Free-running complement with a log sink that takes 0.3 ms per record while output flows and the stream is cancelled / shut down / ends. Virtual clock: an input stream that accepts its line only after a minute; delivered lines = input records. Formatter-looking lines among the payloads. Two runs of the real binary on one log file: the second continues the first.",
     _BWNOTE + " The -log file of the real binary is the same handler writing to a file; the file itself is not exercised here.",
     "DESIGN.md 4, 5 C11")
 
@@ -72,14 +72,14 @@ chk("C17", "exploration",
     "Every directory with <=3 (thorough 4) entries over 12 names (spaces, glob characters, dot-files, editor lock/backup names, several extensions) x 6 entry kinds "
     "(regular, empty, no final newline, sub-directory, symlink to a regular file, dangling symlink on dot/non-matching names) built for real so os.DirFS is exercised, "
     "converted twice with 4 filter tables (default, extended, reduced, overlapping with a user filter); single-file and multi-source forms; an fstest.MapFS variant. "
-    "Failing trees are reduced to the minimal ones before reporting. Eligible files of 1-3 MiB in a directory and as single-file sources.",
+    "Failing trees are reduced to the minimal ones before reporting. Eligible files of 1-3 MiB in a directory and as single-file sources. Source names with glob characters next to siblings a pattern would match; 400 eligible files converted in a worker with 64 spare descriptors.",
     "Per-file conversion is a black box here (C16 owns FromPerl). Symlinks to regular files may be included or omitted; an empty conversion contributes nothing.",
     "DESIGN.md 5 C17")
 chk("C18", "exploration",
     "bounded exhaustive enumeration of TABDOC strings, generated function executed by dash and bash with an argument-framing echo stub",
     "Every string of <=3 (thorough 4) symbols over 23 shell-significant symbols (quotes, backslash, $, backquote, parentheses, operators, globs, control bytes, invalid UTF-8) "
     "as name, description and both, classic quote-breakers carrying canary commands, and every sequence of <=4 doc lines over a menu with duplicates/empties; oracle: one "
-    "call of echo per expected row with exactly one argument whose bytes parse to the expected (name, description), sorted, nothing else on stdout/stderr, status 0, no canary. Converter.From seam: every sequence of <=3 sources (filtered / unfiltered files, with / without final newline, a directory) converted with and without the listing; the listing is the only difference and its rows are those of the TABDOC lines of the payload it follows. The same with a zero-value Converter and with one kept Converter that saw the same sources a moment before a file was rewritten in place.",
+    "call of echo per expected row with exactly one argument whose bytes parse to the expected (name, description), sorted, nothing else on stdout/stderr, status 0, no canary. Converter.From seam: every sequence of <=3 sources (filtered / unfiltered files, with / without final newline, a directory) converted with and without the listing; the listing is the only difference and its rows are those of the TABDOC lines of the payload it follows. The same with a zero-value Converter and with one kept Converter that saw the same sources a moment before a file was rewritten in place. Duplicates containing a quote; runs of blanks, a no-break space and a CR inside TABDOC text.",
     "dash and bash of this image stand for 'a POSIX shell'.",
     "DESIGN.md 5 C18")
 
@@ -88,7 +88,7 @@ chk("C16", "exploration",
     "One program per byte value 1..255 in both quote styles, 135 consecutive script lengths (all residues mod 45 and 3) in two shapes, every sequence of <=2 (thorough 3) statements "
     "over an 11-statement grammar x 6 leading-comment shapes x argument/stdin settings, 12 argument vectors, sizes to 64 KiB, empty and whitespace-only scripts, each under dash and bash; "
     "dynamic oracle: same stdout and exit status (die: failure status + message); static oracle: the function body, with the s/b substitution reversed and decoded by a reference "
-    "uudecoder, equals the statement's program text, kept comments and function name. The grammar includes literals and here-docs with trailing blanks and lines that merely look like __END__ / __DATA__. Converter histories: one long-lived Converter converts a directory while the script is replaced by an older / same-age / newer file and other Converters' tables are changed (every history of <=4 operations, real directory and MapFS); the function text must be the wrapped form of the script that is there now. Reader shapes for FromPerl: one byte at a time, halves, data together with EOF, everything together with EOF, a reader that times out.",
+    "uudecoder, equals the statement's program text, kept comments and function name. The grammar includes literals and here-docs with trailing blanks and lines that merely look like __END__ / __DATA__. Converter histories: one long-lived Converter converts a directory while the script is replaced by an older / same-age / newer file and other Converters' tables are changed (every history of <=4 operations, real directory and MapFS); the function text must be the wrapped form of the script that is there now. Reader shapes for FromPerl: one byte at a time, halves, data together with EOF, everything together with EOF, a reader that times out. Leading comment blocks of 100..600 lines.",
     "'Every Perl program' is not enumerable: the grammar covers the constructs the quantifier names. $0/__FILE__/__DATA__ excluded as the statement says. Known finding: the empty script (see known_findings.json).",
     "DESIGN.md 5 C16")
 
@@ -106,7 +106,7 @@ chk("C05", "exploration",
     "exhaustive product of start-up configurations and restart/overlap histories, pin recomputed from the wire certificate, real curl --pinnedpubkey",
     _HW + "C05: key source {none, cache created, cache reused over 3 starts} x 6 listen-address forms x 6 callback-address sets x files x template; every sha256// value in the start-up notices, "
     "the help re-printed after a shell died and two /c bodies equals base64(SHA-256(SPKI)) of the leaf seen in two handshakes; one-liners name the bound port unless the user gave one; real curl "
-    "accepts the advertised pin and refuses a one-character variant; an instance keeps serving what it advertised while its cache file is deleted/re-created/rewritten by another instance; four instances started together on a fresh cache path. Also: hand-made caches (a certificate section holding a chain; a certificate whose validity has passed) over three starts, and the real binary on a pty (fingerprints and ports as printed on the terminal, restart on the same cache). 16 clients requesting scripts at once (6 400 / 64 000 scripts): both pins of every script are the listener's (a sampling complement for shared rendering state). Every host:port the user supplied is among the printed addresses (ports up to 65535); curl --tls-max 1.2 with the advertised pin.",
+    "accepts the advertised pin and refuses a one-character variant; an instance keeps serving what it advertised while its cache file is deleted/re-created/rewritten by another instance; four instances started together on a fresh cache path. Also: hand-made caches (a certificate section holding a chain; a certificate whose validity has passed) over three starts, and the real binary on a pty (fingerprints and ports as printed on the terminal, restart on the same cache). 16 clients requesting scripts at once (6 400 / 64 000 scripts): both pins of every script are the listener's (a sampling complement for shared rendering state). Every host:port the user supplied is among the printed addresses (ports up to 65535); curl --tls-max 1.2 with the advertised pin; refused /c requests carry no curl command pinning anything else.",
     "Key values are not enumerable; the oracle is relational per generated key. A start the program refuses is outside this property.",
     "DESIGN.md 5 C05")
 chk("C07", "exploration",
@@ -120,7 +120,7 @@ chk("C09", "exploration",
     "bounded exhaustive enumeration of raw request targets against real directory trees with canaries outside, all three configurations",
     _HW + "C09: every target of <=3 segments (thorough: larger segment set, 4 segments over the core set) over dot-segments, encoded/double-encoded dots, encoded slashes, backslashes, NUL, empty segments, "
     "shell-endpoint names, canary names and a 4 KiB segment x 3 prefixes x 3 suffixes, 301s followed once, against 3 trees (flat, nested, files named c/io/i/x/o/x) + single-file + unset; oracle: no canary content ever, "
-    "no outside listing, 200 bodies are files/listings of the tree (single file: exactly that file; unset: no non-shell 2xx, file handler never runs), shell endpoints keep acting as such (by their notices), one 'File requested' notice per file response. Also: siblings whose names begin with the tree's name reached through every spelling of .. that survives the mux; shell endpoints with POST/PUT/DELETE/OPTIONS; 40 file requests against an operator queue of 8 (a stalled terminal) must all be reported. Single-file mode under concurrency (a 3 MiB file fetched by 8 clients at once, three rounds) and after the file was replaced by rename. Long targets (13 KB; a 431 below net/http's own limit counts as refusing the request). Single-file mode in a worker process with ~40 spare descriptors and the collector off: 300 requests, each must get the file. /c with queries its handler cannot parse stays /c.",
+    "no outside listing, 200 bodies are files/listings of the tree (single file: exactly that file; unset: no non-shell 2xx, file handler never runs), shell endpoints keep acting as such (by their notices), one 'File requested' notice per file response. Also: siblings whose names begin with the tree's name reached through every spelling of .. that survives the mux; shell endpoints with POST/PUT/DELETE/OPTIONS; 40 file requests against an operator queue of 8 (a stalled terminal) must all be reported. Single-file mode under concurrency (a 3 MiB file fetched by 8 clients at once, three rounds) and after the file was replaced by rename. Long targets (13 KB; a 431 below net/http's own limit counts as refusing the request). Single-file mode in a worker process with ~40 spare descriptors and the collector off: 300 requests, each must get the file. /c with queries its handler cannot parse stays /c. File requests with query parameters of ten common names (t, token, id, key, ...).",
     "Symlinks inside the tree are outside the quantifier. net/http's own 400/301 answers are only checked for leaking content.",
     "DESIGN.md 5 C09")
 
@@ -129,7 +129,7 @@ chk("C13", "model_checking",
     "Real TLS servers A, B, C (C presents the chain [C, A]) and I (a copy of A's certificate - subject, issuer, serial number, validity - around another key); (a) every (server, fingerprint spelling) pair over 11 spellings (plain, prefixed, unpadded, 31/33 bytes, non-base64, prefix only, double prefix, "
     "trailing blank, none); (b) every history of <=3 calls over 7 configurations (same URL with different pins included); (c) every schedule of 2 (thorough 3) concurrent calls, the scheduling points being the "
     "callbacks Go makes (Output() sits exactly between transport configuration and the request). Oracle: reference verdict (chain contains the pinned key / ordinary validation), the server's handler runs and receives body bytes "
-    "only for accepted calls, a call reaches only its own server, http.DefaultClient / DefaultTransport settings unchanged after every step. Thorough adds a free-running -race pass. The pinned calls are repeated with a default transport that sends everything through a CONNECT proxy of the harness and trusts every server's certificate: same verdicts. Servers U (a second certificate in the chain whose key Go cannot marshal) and S (a key whose pin begins with a slash, both spellings).",
+    "only for accepted calls, a call reaches only its own server, http.DefaultClient / DefaultTransport settings unchanged after every step. Thorough adds a free-running -race pass. The pinned calls are repeated with a default transport that sends everything through a CONNECT proxy of the harness and trusts every server's certificate: same verdicts. Servers U (a second certificate in the chain whose key Go cannot marshal) and S (a key whose pin begins with a slash, both spellings). Fingerprints that are the pinned hash followed by 1 or 32 more bytes are malformed.",
     "Scheduling granularity is the callbacks, not every instruction; the -race pass covers unsynchronised accesses.",
     "DESIGN.md 5 C13")
 chk("C14", "exploration",
@@ -145,7 +145,7 @@ chk("C08", "fault_enumeration",
     "lib/sstls is built with its os import rewritten (overlay) to a logging/crash-injecting shim. (a) every crash point of the real GetCertificate write path: before each mutating call and after every byte count 0..n (~815) of "
     "WriteFile, each followed by a recovery run on the same directory and a real in-memory TLS handshake; (b) every byte offset of a complete cache file x 6 replacements (~4800), by region; (c) every history of <=4 (thorough 6) "
     "operations over {start, start without cache, delete cache, torn write at 3 lengths} against a key-identity model; (d) missing-directory nesting 0..4 x umask {0, 022, 077} with modes checked after every step. "
-    "Oracle: recovery fails or serves the key that was being saved (never another, never an unusable pair), an existing file is never rewritten, file 0600 / directories 0700 at every point. Damage classes: 16 (every single-bit flip of the low six bits and the top bit, +1, -1, six fixed characters); restarts of caches whose certificate lives 1 ns / 1 s / 1 h. Above GetCertificate: every history of <=3 starts through sstls.Listen (fine / address in use / bad address) on one cache path, from a missing and an existing cache; the HTTPS server started the program's way (hsrv.New) on ~20 damaged caches must fail or serve the cached key. The os shim can also make the cache write fail (ENOSPC after k bytes): successive starts all reported as successful present one key. Cache paths with .. after a symbolic link, doubled separators, dot segments.",
+    "Oracle: recovery fails or serves the key that was being saved (never another, never an unusable pair), an existing file is never rewritten, file 0600 / directories 0700 at every point. Damage classes: 16 (every single-bit flip of the low six bits and the top bit, +1, -1, six fixed characters); restarts of caches whose certificate lives 1 ns / 1 s / 1 h. Above GetCertificate: every history of <=3 starts through sstls.Listen (fine / address in use / bad address) on one cache path, from a missing and an existing cache; the HTTPS server started the program's way (hsrv.New) on ~20 damaged caches must fail or serve the cached key. The os shim can also make the cache write fail (ENOSPC after k bytes): successive starts all reported as successful present one key. Cache paths with .. after a symbolic link, doubled separators, dot segments. Three restarts of the server as the program builds it on one intact cache (IPv4 / IPv6 listen address, a callback name added on the third).",
     "A crash stops the process at a call boundary or inside WriteFile after k bytes, with what was written durable; only lib/sstls's own os calls are intercepted (txtar reads through the real os).",
     "DESIGN.md 5 C08")
 
@@ -161,7 +161,7 @@ chk("C12", "exploration",
     "bounded exhaustive enumeration of -one-shell session histories of the real binary on a pty with real TLS clients",
     "The real binary with -one-shell: pre-attempt sequences (length <=1 quick, <=2 thorough) over {half-attached input that leaves, half-attached output that leaves, refused output beside a held input} x arrival {/i then /o, /o then /i, /io} "
     "x ending {input closed, output closed, both, output EOF} x traffic in flight x exit trigger {line, Ctrl+D}; oracle: TCP connects succeed before the shell is fully attached (also while half attached) and are refused within 20 s after the ready notice; "
-    "a marker goes both ways right after the close and again 2.5 s later; nothing in flight is lost; no one-liners after the shell is gone; exit 0 with Goodbye after at most one more line; termios restored. Also two in-process scenarios: a stalled operator channel at the moment the shell becomes ready (Server.Do must still end with the expected closure), and a broker busy delivering an earlier event when the server starts (the first shell's connected event must not be lost). Pre-attempts include a refused /io client beside a held input; two sessions are left alone for 8 s (thorough 35 s) after the listener closed before the second round trip. Sessions whose shell ends the moment it is ready: the listener still closes, no one-liners, exit at the next line.",
+    "a marker goes both ways right after the close and again 2.5 s later; nothing in flight is lost; no one-liners after the shell is gone; exit 0 with Goodbye after at most one more line; termios restored. Also two in-process scenarios: a stalled operator channel at the moment the shell becomes ready (Server.Do must still end with the expected closure), and a broker busy delivering an earlier event when the server starts (the first shell's connected event must not be lost). Pre-attempts include a refused /io client beside a held input; two sessions are left alone for 8 s (thorough 35 s) after the listener closed before the second round trip. Sessions whose shell ends the moment it is ready: the listener still closes, no one-liners, exit at the next line. 1 100 half-attached attempts before the shell.",
     "'shortly' = refused at some poll within 20 s; the operator's line is entered 3 s after the shell is gone (net/http's graceful shutdown polls at up to 500 ms, a line typed inside that window is consumed first).",
     "DESIGN.md 5 C12")
 
